@@ -44,7 +44,10 @@ try:
                     if not (bare_ok and R.random() < 0.4) and (not lit.startswith('..') or R.random() < 0.3): lit = './' + lit
                 arg, text = ('ALit', lit), (lit if R.random() < 0.85 else '(%s)' % lit)
             content[(d, n)] = (i, arg)
-            open(os.path.join(base, *d, n), 'w').write('{ id = "id%d"; next = import %s; }\n' % (i, text))
+            # how the argument follows the keyword: a space, several, a tab, a line break, a comment, or nothing before a parenthesis
+            sep = R.choice([' ', ' ', ' ', ' ', '  ', '\t', '\n    ', ' /* c */ ', '\n  # c\n  '])
+            if text.startswith('(') and R.random() < 0.5: sep = ''
+            open(os.path.join(base, *d, n), 'w').write('{ id = "id%d"; next = import%s%s; }\n' % (i, sep, text))
         bt = tuple(base.strip('/').split('/'))
         mdirs = [bt[:k] for k in range(len(bt) + 1)] + [bt + d for d in dirs if d]
         fs = ('{| dirs := [%s]; files := [%s] |}' % (
